@@ -80,6 +80,7 @@ func rulesC05(c *Ctx) {
 		"C05 (supply conserved, share bookkeeping consistent) — decided: (a) LEDGER discipline: every in-place arithmetic on a ledger location (general balances, escrow pool balances and total shares, delegation shares, the block fee accumulator, common pool, total supply, last block fees, governance deposits) happens inside quantity.Move/MoveUpTo or SharePool.Deposit/Withdraw — the only primitives that debit and credit the same amount — or is a reviewed table row (explicit burn, share merge, CheckTx-only bookkeeping, genesis); (b) PAIR: in every function of the staking/governance/roothash applications and the staking state package, a ledger object obtained from its getter and then mutated is written back with its matching setter on every success exit and before the next load in a loop; fee persistence: disburseFeesP stores the carried-over fees on every success exit; (c) total supply is written only by the burn path and genesis, escrow total shares only by Deposit/Withdraw; (d) inside SharePool.Deposit/Withdraw the share amount added to / removed from the pool total is the very value added to / removed from the holder, and the stake moves through Move with the pool balance; (e) no staking transaction handler can fail after a ledger write (write-then-fail analysis restricted to ledger setters).",
 		"NOT decided: the arithmetic identities themselves (that computed reward/slash/fee splits sum to what is moved), supply equality at block boundaries over histories.")
 	c05Round2(c)
+	c05Round3(c)
 	ix := c.P.BuildIndex()
 
 	// ---- (a) LEDGER discipline
